@@ -4,6 +4,7 @@ let err_name = function
   | EEmpty -> "EEmpty" | EChar -> "EChar" | EChecksum -> "EChecksum" | EValue -> "EValue" | ELen -> "ELen"
   | EVersion -> "EVersion" | EPrivPrefix -> "EPrivPrefix" | EPubPrefix -> "EPubPrefix" | EBadKey -> "EBadKey"
   | EIndex -> "EIndex" | ETweak -> "ETweak" | EChainCode -> "EChainCode" | EDepth -> "EDepth" | EWord -> "EWord"
+  | EPayload -> "EPayload"
 
 let of_res f = function
   | Ok a -> JObj [("ok", f a)]
@@ -18,6 +19,16 @@ let o_hash160 = oracle1 "hash160"
 let o_pub = oracle1 "pub"
 let o_pub_add p t = match oracle2 "pub_add" p t with [] -> None | r -> Some r
 let o_pub_valid p = match oracle1 "pub_valid" p with [] -> false | b :: _ -> int_of_byte b <> 0
+
+(* code point lists travel as UTF-32BE bytes *)
+let rec cps_of_bytes (l : byte list) : n list = match l with
+  | a :: b :: c :: d :: r -> be_decode [a; b; c; d] :: cps_of_bytes r
+  | [] -> []
+  | _ -> raise (Model_error "utf-32 length")
+let bytes_of_cps (l : n list) : byte list = SL.concat (SL.map (fun c -> be_encode (nat_of_int 4) c) l)
+let o_nfkd s = cps_of_bytes (oracle1 "nfkd" (bytes_of_cps s))
+let o_lower s = cps_of_bytes (oracle1 "lower" (bytes_of_cps s))
+let o_combining c = match oracle1 "combining" (bytes_of_cps [c]) with [] -> false | b :: _ -> int_of_byte b <> 0
 
 let of_xkey (k : xkey) =
   JObj [("kind", JStr (match k.xk_kind with KPub -> "pub" | KPriv -> "priv"));
@@ -71,6 +82,11 @@ let () = serve (fun fn req ->
     JArr (go (to_xkey (jfield req "k")) (SL.map jn (jlist (jfield req "path"))) [])
   | "address" -> of_res of_text (address o_hash160 o_dsha (jbytes (jfield req "prefix")) (jbytes (jfield req "pk")))
   | "address_to_hash160" -> of_res of_bytes (address_to_hash160 (jbytes (jfield req "a")))
+  | "is_version_address" ->
+    of_res of_bool (is_version_address o_dsha (byte_of_int (jint (jfield req "ver"))) (jbytes (jfield req "a")))
+  | "valid_address" ->
+    of_bool (valid_address o_dsha (byte_of_int (jint (jfield req "pub_ver"))) (byte_of_int (jint (jfield req "script_ver")))
+               (jbool (jfield req "allow_script")) (jbytes (jfield req "a")))
   | "chain_address" ->
     of_res of_text (chain_address o_hmac512 o_pub_add o_hash160 o_dsha (jbytes (jfield req "prefix"))
                       (to_xkey (jfield req "acct")) (jn (jfield req "c")) (jn (jfield req "i")))
@@ -101,5 +117,6 @@ let () = serve (fun fn req ->
   | "mn_encode" -> of_bytes (mnemonic_encode !words (jn (jfield req "i")))
   | "mn_words" -> of_list of_bytes (mnemonic_words !words (jn (jfield req "i")))
   | "mn_decode" -> of_res of_n (mnemonic_decode !words (jbytes (jfield req "s")))
+  | "normalize_text" -> of_bytes (bytes_of_cps (normalize_text o_nfkd o_lower o_combining (cps_of_bytes (jbytes (jfield req "s")))))
   | "split_ws" -> of_list of_bytes (split_ws (jbytes (jfield req "s")))
   | _ -> raise (Model_error ("unknown fn " ^ fn)))
